@@ -35,6 +35,22 @@ def run(ctx):
             ctx.case([inst["tag"], eng])
     fails, _ = ctx.validate("Trace_Read", {"traces": [[e] for e in events]})
     lastext.judge(ctx, events, meta, fails)
+    # write side: every NaN is emitted as the current NULL value, so the NaN positions survive a write->read cycle
+    from harness import roundtrip
+    wevents = []
+    masks = ["none", "one", "row", "col", "all", "checker"]
+    for k in range(1200 if thorough else 240):
+        inst = {"ncurves": rng.randint(2, 9), "nrows": rng.choice([1, 2, 3, 5]), "version": rng.choice(["1.2", "2.0"]),
+                "wrap": rng.random() < 0.4, "engine": rng.choice(["numpy", "normal"]), "mh": False, "mask": masks[k % 6],
+                "pres": rng.randint(1, len(roundtrip.PRES))}
+        wevents.append(roundtrip.data_event(inst, rng, prop="C06"))
+        ctx.evaluations += 1
+        ctx.case(["write-side", inst])
+    slim = [[{k2: v for k2, v in e.items() if k2 not in ("text", "opts")}] for e in wevents]
+    fails, _ = ctx.validate("Trace_RoundTrip", {"traces": slim})
+    for tid, l, clause in fails:
+        ev = wevents[tid]
+        ctx.report(clause, "write side: opts=%s engine=%s exc=%r" % (ev["opts"], ev["engine"], ev["exc"]), {"event": ev})
     ctx.sample({"tag": meta[len(meta) // 2]["tag"], "concrete": meta[len(meta) // 2]["concrete"],
                 "observed": events[len(events) // 2].get("res")})
     ctx.assumptions += ["numeric equality of a token and NULL is float(a) == float(b) (projection); a text column is "
